@@ -618,3 +618,7 @@ def main(ctx):
     ctx.histories("two-files-world", [()], execute3, depth=ctx.pick(4, 6), nodedup_depth=2,
                   bounds=dict(files=2, dtypes=list(FDK), rows_per_file_max=6,
                               isolation="every history in a forked child with pristine module state"))
+
+    # ------------------------------------------------ one SFile object used for several files (mc/sfreuse.py)
+    from mc.sfreuse import reused_object_world
+    reused_object_world(ctx, "one-object-several-files", depth=ctx.pick(5, 7))
